@@ -35,9 +35,7 @@ Definition phase_close (tol : float) (a b : list cf) : bool :=
   let nb := cnorm2 fops bk in
   let ph := cdivr fops (cmul fops ak (cconj fops bk)) nb in
   vclose tol a (map (fun x => cmul fops ph x) b).
-(* the register the program declares: it is run on the circuit's input state, so it must be exactly as wide as that state *)
-Definition declared_width (stmts : list qstmt) : option N :=
-  match find (fun s => match s with SQubitDecl _ => true | _ => false end) stmts with Some (SQubitDecl k) => Some k | _ => None end.
+(* declared_width (Spec.QasmGrammar): the program is run on the circuit's input state, so the declared register must be exactly as wide *)
 Definition check_export_sem (par : bool) (text : string) (tab : list (qexpr * (float * float * float * float))) (n : N) (v : list cf)
     (draws : list float) (impl_ok : bool) (w : list cf) : N :=
   match p_program (lex text) with
